@@ -599,9 +599,30 @@ pub fn gen_string_of_len(u: &mut Unstructured, n: usize) -> String {
         // long strings: a short random head, then a repeating fill
         let head = gen_string_of_len(u, 16.min(n));
         s.push_str(&head);
-        let fill = if ascii_only { "x" } else { "ö" };
-        while s.len() + fill.len() <= n {
-            s.push_str(fill);
+        if ascii_only {
+            while s.len() < n {
+                s.push('x');
+            }
+        } else {
+            // multi-byte characters at every alignment: an ASCII shift of 0..3 bytes, then a cycle of
+            // 2-, 3- and 4-byte characters (period 9 bytes), so that characters straddle every kind of
+            // chunk boundary of the readers
+            let sel = gen::byte(u);
+            for _ in 0..(sel % 4) {
+                if s.len() < n {
+                    s.push('y');
+                }
+            }
+            let fills: &[&str] = match (sel >> 2) % 3 {
+                0 => &["ö"],
+                1 => &["ö", "€", "😀"],
+                _ => &["€"],
+            };
+            let mut i = 0;
+            while s.len() + fills[i % fills.len()].len() <= n {
+                s.push_str(fills[i % fills.len()]);
+                i += 1;
+            }
         }
     } else {
         while s.len() < n {
